@@ -674,8 +674,8 @@ def build(template_path, repo, out_path, drop_tags=()):
                             k = e + 1
                             continue
                     k += 1
-                if n16 == 0:
-                    raise ExtractError(f"rule 16: `{path[-1]}` contains no async block")
+                # (no async block left — e.g. the statement that built the future was removed: nothing to replace, the
+                # contract decides)
                 unit.drops["async_blocks_replaced_by_opaque_future"] = unit.drops.get("async_blocks_replaced_by_opaque_future", 0) + n16
             if sink:
                 # rule 15: see the module docstring
